@@ -3,7 +3,7 @@
    discards", lifted through all process blocks with the tactic of FactoryInv.v / FactoryRes.v. *)
 From Coq Require Import List ZArith Lia Bool Arith.
 From RecordUpdate Require Import RecordUpdate.
-From FV Require Import ListLemmas Kernel SrcFragments TieB World Factory.
+From FV Require Import ListLemmas Kernel SrcFragments Lens World Factory.
 From FV Require FactoryInv.
 From FV Require StoreB.
 Import ListNotations.
